@@ -355,3 +355,21 @@ def run(chk):
                               expected="interpolate the parsed node / tokens instead of building an AST node", found=render(node)[:100])
         chk.unit("foreign_node_constructions", n)
     chk.guard("R5", r5)
+    chk.guard("R6", lambda: _import_bound_list(chk))
+
+def _import_bound_list(chk):
+    """`parse_quote!('o2o: #(#list)+*)` with an empty list: syn 2 parses `'o2o:`, syn 1's parser rejects it and parse_quote! panics. The
+    list interpolated must therefore be the list tested for emptiness (C11.R4 bound-list instances)."""
+    from ..core import Check
+    from . import c11
+    sub = Check("C11", chk.repo, chk.tier)
+    sub.guard("run", lambda: c11.run(sub))
+    chk.rule("R6", "the lifetime bound list spliced into parse_quote!('o2o: ..) is never empty (same list as the emptiness test)", floor=1)
+    n = 0
+    for i in sub.instances:
+        if i.rule == "R4" and i.key.startswith("o2o["):
+            n += 1
+            if i.ok:
+                chk.ok("R6", "bounds:" + i.key, i.file, i.line)
+            elif i.key.endswith("/bound-list"):
+                chk.bad("R6", "bounds:" + i.key, i.file, i.line, i.what, i.expected, i.found)
